@@ -4,6 +4,7 @@ result is compared with the reference provenance (DESIGN.md section 5, C19.C, C1
 from rules.common import *
 
 LEVEL = 'proof'
+FIXTURES = ['F3']
 
 IPV4, IPV6, UNIX = 'ip::IPv4', 'ip::IPv6', 'v2::model::Unix'
 V1A, V2A = 'v1::model::Addresses', 'v2::model::Addresses'
